@@ -102,6 +102,14 @@ type extension struct {
 	extensions.NoExtensionImpl
 }
 
+// NewParse returns the extension with an empty set of elevator alerts, for parsing one feed.
+func (e extension) NewParse() extensions.Extension {
+	return extension{
+		opts:           e.opts,
+		elevatorAlerts: map[string]*gtfsrt.Alert{},
+	}
+}
+
 var priortyToEffect = map[gtfsrt.MercuryEntitySelector_Priority]gtfsrt.Alert_Effect{
 	gtfsrt.MercuryEntitySelector_PRIORITY_NO_SCHEDULED_SERVICE:     gtfsrt.Alert_NO_SERVICE,
 	gtfsrt.MercuryEntitySelector_PRIORITY_NO_MIDDAY_SERVICE:        gtfsrt.Alert_REDUCED_SERVICE,
